@@ -307,8 +307,16 @@ func (c *Chunk) ReadFrom(r io.Reader) (int64, error) {
 	}
 
 	bitsForHeight := bits.Len( /* chunk height in blocks */ uint(len(c.Sections))*16 + 1)
-	c.HeightMaps.MotionBlocking = NewBitStorage(bitsForHeight, 16*16, heightmaps.MotionBlocking)
-	c.HeightMaps.WorldSurface = NewBitStorage(bitsForHeight, 16*16, heightmaps.WorldSurface)
+	motionBlocking, err := newHeightMap(bitsForHeight, heightmaps.MotionBlocking)
+	if err != nil {
+		return n, err
+	}
+	worldSurface, err := newHeightMap(bitsForHeight, heightmaps.WorldSurface)
+	if err != nil {
+		return n, err
+	}
+	c.HeightMaps.MotionBlocking = motionBlocking
+	c.HeightMaps.WorldSurface = worldSurface
 
 	err = c.PutData(data)
 	return n, err
@@ -334,6 +342,15 @@ func (c *Chunk) PutData(data []byte) error {
 		}
 	}
 	return nil
+}
+
+// newHeightMap is NewBitStorage for the 16*16 heights of a chunk,
+// reporting a long array of the wrong length as an error instead of panicking.
+func newHeightMap(bits int, data []uint64) (*BitStorage, error) {
+	if want := calcBitStorageSize(bits, 16*16); data != nil && len(data) != want {
+		return nil, newBitStorageErr{ArrlLen: len(data), WantLen: want}
+	}
+	return NewBitStorage(bits, 16*16, data), nil
 }
 
 type HeightMaps struct {
